@@ -311,8 +311,9 @@ class MatMulTranspose(orp.RewriteRuleClassBase):
         if fused:
             fused_node = _get_node(fused, "FusedMatMul")
             kwargs = _get_kwargs(fused_node)
-        for name in ["transA", "transB"]:
-            kwargs[name] = 1 - kwargs.get(name, 0)
+        # (A^a @ B^b)^T = (B^b)^T @ (A^a)^T: the operands swap, and so do their flags
+        trans_a, trans_b = kwargs.get("transA", 0), kwargs.get("transB", 0)
+        kwargs["transA"], kwargs["transB"] = 1 - trans_b, 1 - trans_a
         return op.FusedMatMul(y, x, **kwargs, _domain="com.microsoft")
 
 
